@@ -213,9 +213,21 @@ def reorder(s, r):
     return t
 
 
+def insert_zero_segment(s, g, r):
+    """a segment of zero duration with arbitrary coefficients before segment g (g = G: at the end)"""
+    t = clone(s)
+    t['dt'] = np.concatenate([t['dt'][:g], [0.0], t['dt'][g:]])
+    for which in ('Hc', 'Hn'):
+        t[which] = [(o, np.concatenate([c[:g], [float(r.choice(COEFF_POOL))], c[g:]]), i) for o, c, i in t[which]]
+    return t
+
+
 def equal_variants(s, r):
     out = [('reorder', reorder(s, r)), ('merge', merge_all(s)), ('rebuild', clone(s))]
     G = len(s['dt'])
+    for g in range(G + 1):
+        out.append(('zero-duration', insert_zero_segment(s, g, r)))
+    out.append(('zero-duration2', insert_zero_segment(insert_zero_segment(s, int(r.integers(0, G + 1)), r), int(r.integers(0, G + 2)), r)))
     for g in range(G):
         for parts in (2, 3):
             t = split_segment(s, g, parts, r)
@@ -332,6 +344,33 @@ def run_pairs(ctx, r, n_base, failures, classes, samples):
             meta.append(('eq', tag, spec_json(s), spec_json(t)))
         if len(samples) < 3:
             samples.append(dict(d=s['d'], G=len(s['dt']), c_ids=[str(i) for _, _, i in s['Hc']], dt=[float(x) for x in s['dt']]))
+    for bi in range(n_base, n_base + max(2, n_base // 2)):      # pulses that contain zero-duration segments
+        s = rand_spec(r, positive_dt=False, G=int(r.integers(2, 6)))
+        if bi % 2:
+            s['dt'][:] = 0.0
+            s['dt'][int(r.integers(0, len(s['dt'])))] = 0.0 if bi % 4 == 1 else 0.5    # all zero / all but one zero
+        p = build(s)
+        base_lit = 'b%d' % bi
+        defs.append((base_lit + '_j', 'Definition %s := %s.\n' % (base_lit, E.pulse(p)) + join_def(base_lit + '_j', base_lit, p)))
+        meta.append(('join', 'join-zero-duration', spec_json(s), None))
+        classes['join/zero-duration'] = classes.get('join/zero-duration', 0) + 1
+        k = 0
+        for tag, t in equal_variants(s, r) + edge_pairs(s, r)[:2]:
+            q = build(t)
+            ab, ba = impl_eq(p, q), impl_eq(q, p)
+            nev += 1
+            classes['zero-base/' + tag.split('e-')[0]] = classes.get('zero-base/' + tag.split('e-')[0], 0) + 1
+            allzero = not (np.asarray(s['dt']) != 0).any()
+            if tag in ('reorder', 'rebuild', 'merge') or (tag.startswith('zero-duration') and not allzero):
+                if not (ab and ba):
+                    failures.append(failure('prop', 're-segmented / re-ordered pulse compares unequal', 'c17-variant-' + tag,
+                                            '%s (base with zero-duration segments): p==q %s, q==p %s' % (tag, ab, ba),
+                                            dict(kind='pair', expect='equal', a=spec_json(s), b=spec_json(t))))
+            nm = 'b%d_m%d' % (bi, k)
+            k += 1
+            defs.append((nm, 'Definition %s : N*N*N := let q := %s in tadd3 (chk_eq %s q %s) (chk_eq q %s %s).\n' % (
+                nm, E.pulse(q), base_lit, B(ab), base_lit, B(ba))))
+            meta.append(('eq', tag, spec_json(s), spec_json(t)))
     return defs, meta, nev
 
 
@@ -565,12 +604,11 @@ def run_parse(ctx, r, n_cases, big_ns, failures, classes):
                 got = (p.n_opers, p.n_oper_identifiers, p.n_coeffs) if noise else (p.c_opers, p.c_oper_identifiers, p.c_coeffs)
                 for sig, det in parse_predicate(H, noise, *got)[:1]:
                     if sig == 'c17-identifiers-not-unique':
-                        sig = 'c17-default-identifiers-truncated'
+                        sig = 'c17-default-identifiers-not-unique'
                     failures.append(failure('prop', 'default identifiers', sig, 'n=%d operators without identifiers: %s' % (n, det), inp))
             nm = 'pd%d%s' % (n, 'n' if noise else 'c')
-            if p is not None and n > 100:      # duplicates: tie order is NumPy's business, compare the identifiers
-                defs.append((nm, 'Definition %s : N*N*N := chk_parse_ids %s 1%%nat %s %s.\n' % (
-                    nm, B(noise), E.hentries(H), E.strs(p.n_oper_identifiers if noise else p.c_oper_identifiers))))
+            if False:
+                pass
             else:
                 defs.append((nm, 'Definition %s : N*N*N := chk_parse %s 1%%nat %s (%s).\n' % (
                     nm, B(noise), E.hentries(H), parse_res_lit(p, noise, exc))))
